@@ -122,6 +122,11 @@ def gen_labware(rng, kind, name, regime, size_class, idx, opts):
                 other = rng.choice(unnamed) if unnamed else well_id(rng.randrange(rows), rng.randrange(cols))
                 if names.get(wid) is not None:
                     names[wid] = f"{name}.{other}"
+            elif names and rng.random() < 0.06:
+                # an explicitly given empty name (a blank cell of a layout sheet) is a name, not "no name"
+                for wid in rng.sample(sorted(names), min(len(names), rng.choice([1, 2]))):
+                    if names[wid] is not None:
+                        names[wid] = ""
             spec["names"] = names
     else:
         spec["vrows"] = rows
@@ -134,6 +139,10 @@ def gen_labware(rng, kind, name, regime, size_class, idx, opts):
             spec["names"] = [
                 (rng.choice(COMPONENTS) if (ini[c] > 0 and rng.random() < 0.7) else None) for c in range(cols)
             ]
+        if spec["names"] and rng.random() < 0.06:
+            c = rng.randrange(cols)
+            if spec["names"][c] is not None:
+                spec["names"][c] = ""
         if rng.random() < 0.1:
             spec["via_labware"] = True
             spec["names"] = [(f"{rng.choice(COMPONENTS)}_c{c}" if ini[c] > 0 else None) for c in range(cols)]
@@ -224,6 +233,10 @@ def gen_world(rng, opts=None):
     # the boolean options as a script computes them: numpy.bool_ (`volumes.max() > 950`) or 0/1 instead of a builtin bool
     r = rng.random()
     wl["flag_type"] = "npbool" if r < 0.08 else "int" if r < 0.12 else None
+    # how the script constructs the worklist: all arguments positional instead of by keyword; through the
+    # deprecated alias `robotools.Worklist` (an EvoWorklist) instead of the recommended class
+    wl["ctor_positional"] = rng.random() < 0.12
+    wl["legacy_class"] = rng.random() < 0.08
     return {"device": device, "regime": regime, "worklist": wl, "disk": disk, "labware": labs}
 
 
@@ -284,6 +297,8 @@ def build_worklist(rt, world, scratch=None, device=None):
     device = device or world["device"]
     cls = {"evo": rt.EvoWorklist, "fluent": rt.FluentWorklist, "base": rt.BaseWorklist}[device]
     w = world["worklist"]
+    if w.get("legacy_class") and device == "evo" and hasattr(rt, "Worklist"):
+        cls = rt.Worklist
     path = None
     if scratch is not None:
         p = os.path.join(scratch, w["file"])
@@ -309,7 +324,10 @@ def build_worklist(rt, world, scratch=None, device=None):
         elif w.get("max_volume_type") == "npfloat":
             import numpy as np
             mv = np.float64(mv)
-        wl = cls(path, max_volume=mv, auto_split=auto_split, diti_mode=diti_mode)
+        if w.get("ctor_positional"):
+            wl = cls(path, mv, auto_split, diti_mode)
+        else:
+            wl = cls(path, max_volume=mv, auto_split=auto_split, diti_mode=diti_mode)
     return wl
 
 
